@@ -299,6 +299,8 @@ func driveC11(toks []string) string {
 		return c11Eval(c11Materialize(e, nil), nil)
 	case "ltreeall":
 		return driveC11Logical(toks)
+	case "lcmp":
+		return driveC11Cmp(toks)
 	case "filter":
 		failAt := c11Nat(toks[1])
 		nf := c11Nat(toks[2])
@@ -701,6 +703,7 @@ func genC11(g *Gen, tier string, w *bufio.Writer) {
 	}
 	// 3b. logical expressions through the real typechecker
 	genC11Logical(g, thorough, func(l string) { fmt.Fprintln(w, l) })
+	genC11Cmp(func(l string) { fmt.Fprintln(w, l) })
 	// 4. Filter over streams
 	nf := 1500
 	if thorough {
